@@ -170,6 +170,9 @@ func genQuery(r *lib.RNG, height int, hot []int) Q {
 	if len(q.Pre) > 0 && r.Chance(1, 2) {
 		q.ToTag = "pre_confirmed"
 	}
+	if len(q.Pre) > 0 && r.Chance(1, 3) {
+		q.PreBack = 1 + r.Intn(2) // a pre-confirmed chain that was built on a block below the head
+	}
 	if q.Rpc && len(q.F.Addrs) <= 1 {
 		switch r.Intn(4) {
 		case 0:
@@ -245,7 +248,7 @@ func (b *Base) extend(r *lib.RNG, res *lib.Result) *Base {
 			w.do(Op{Kind: "store", Plan: sg.plan, N: sg.n})
 		}
 		if len(w.Chain) != target {
-			res.Note("base2: height %d, wanted %d", len(w.Chain), target)
+			res.Fatalf("base2: height %d, wanted %d", len(w.Chain), target)
 		}
 		f.W[i] = w
 	}
@@ -297,12 +300,12 @@ func buildBases(r *lib.RNG, res *lib.Result) *Base {
 		for i := 0; i < s.n; i++ {
 			bun, err := src.next(s.plan)
 			if err != nil {
-				res.Note("base: %v", err)
+				res.Fatalf("base: %v", err)
 				return b
 			}
 			for _, w := range b.W {
 				if err := lib.StoreOn(w.Node.BC, bun); err != nil {
-					res.Note("base: store of block %d failed: %v", bun.Block.Number, err)
+					res.Fatalf("base: store of block %d failed: %v", bun.Block.Number, err)
 					return b
 				}
 				w.Chain = append(w.Chain, s.plan)
@@ -323,7 +326,10 @@ func buildBases(r *lib.RNG, res *lib.Result) *Base {
 
 type Directed struct {
 	Pruning bool // a pruning node: both runs use the pruner's initialiser
-	Far     bool // starts from the second base (height 2W-10; thorough tier only)
+	Far     bool // starts from the second base (height 2W-10)
+	// BelowFloor: the history leaves the assumption "not reorganised below the retention floor";
+	// errors are recorded and compared with the model, not judged
+	BelowFloor bool
 	Name    string
 	Near    bool // starts from the base (height W-10) instead of an empty node
 	Ops     func(height int) []Op
@@ -425,6 +431,77 @@ func directed() []Directed {
 				rv(8), st(3, evB), st(6, nil), {Kind: "restart"}, qu(filtB, 2*W-3, 2*W+7, 1, 0), qu(filtA, 2*W-3, 2*W+7, 1, 0),
 			}
 		}},
+		{Name: "failed-commits-at-the-window-end", Near: true, Ops: func(h int) []Op {
+			return []Op{
+				st(W-2-h, nil), st(1, evA), // head W-2 carries A
+				{Kind: "storefail", Plan: evB}, // block W-1 would close the window: the commit fails
+				qu(filtA, 0, W, 2, 0), qu(filtB, 0, W, 2, 0),
+				st(1, evB), qu(filtB, 0, W, 2, 0), // now it is stored: window 0 persisted, B in W-1
+				{Kind: "revertfail"}, qu(filtB, 0, W, 2, 0), // a failed revert across the boundary changes nothing
+				st(1, evA), {Kind: "storefail", Plan: evA}, {Kind: "revertfail"}, qu(filtA, W-3, W+2, 1, 1),
+				rv(2), {Kind: "storefail", Plan: evA}, st(1, evA), st(1, nil), qu(filtA, 0, W, 2, 0), qu(filtB, 0, W, 2, 0),
+			}
+		}},
+		{Name: "failed-lazy-initialisation", Ops: func(int) []Op {
+			return []Op{
+				st(3, nil), st(1, evA), st(2, nil), {Kind: "snap"},
+				{Kind: "restartfault"},  // the first access hits a transient read error
+				qu(filtA, 0, 5, 2, 0),   // … and the error is remembered: open finding (C05 L16, query side)
+				st(1, evB),              // a Store fails once and re-arms the initialiser
+				st(1, evB), qu(filtA, 0, 9, 2, 0), qu(filtB, 0, 9, 2, 0),
+				{Kind: "restartfault"}, {Kind: "restart"}, qu(filtB, 0, 9, 2, 0), // a restart re-arms too
+				{Kind: "restartfault"}, rv(1), rv(1), qu(filtA, 0, 9, 2, 0),
+			}
+		}},
+		{Name: "crash-inside-the-initialiser", Near: true, Ops: func(h int) []Op {
+			return []Op{
+				st(W-5-h, nil), {Kind: "snap"}, st(1, evA), st(3, nil), st(1, evB), // snapshot next = W-5, head W-1
+				{Kind: "restartcrash", N: 0}, qu(filtB, 0, W-1, 2, 0),
+				{Kind: "restartcrash", N: 1}, qu(filtA, 0, W-1, 2, 0), qu(filtB, 0, W-1, 2, 0),
+				st(1, evA), {Kind: "restartcrash", N: 1}, qu(filtA, 0, W, 2, 0),
+			}
+		}},
+		{Name: "interrupted-prune", Pruning: true, Ops: func(int) []Op {
+			return []Op{
+				st(4, nil), st(1, evA), st(7, nil), st(1, evB), st(12, nil), // 25 blocks, A in 4, B in 12
+				{Kind: "prunecrash", N: 20, J: 3}, qu(filtA, 0, 24, 2, 0), qu(filtA, 4, 24, 2, 0), qu(filtB, 2, 24, 2, 0),
+				{Kind: "restart"}, qu(filtB, 4, 24, 2, 0),
+				{Kind: "prunecrash", N: 20, J: 9}, qu(filtB, 12, 24, 2, 0), {Kind: "restart"}, qu(filtB, 11, 24, 2, 0),
+				{Kind: "prune", N: 20}, qu(filtB, 12, 24, 2, 0), qu(filtB, 20, 24, 2, 0),
+			}
+		}},
+		{Name: "reorg-below-the-retention-floor", Pruning: true, BelowFloor: true, Ops: func(int) []Op {
+			// outside the assumption "a pruning node is not reorganised below its floor": the outcome
+			// is recorded (model = code), not judged
+			return []Op{
+				st(2, nil), st(1, evA), st(3, nil), // 6 blocks
+				{Kind: "prune", N: 5}, rv(1),     // head 4 < floor 5: nothing retained is left
+				qu(filtA, 0, 4, 2, 0), qu(filtA, 2, 9, 2, 0), qu(filtA, 5, 9, 2, 0),
+				rv(1),                              // the head's state update is pruned: refused
+				{Kind: "restart"}, qu(filtA, 0, 4, 2, 0), // floor ≤ BlockHashLag: the initialiser still finds every header
+				st(1, evB), qu(filtB, 5, 9, 2, 0), qu(filtB, 0, 9, 2, 0),
+				st(24, nil), st(1, evA),           // 31 blocks
+				{Kind: "prune", N: 30}, rv(1),     // floor 30 > BlockHashLag, head 29 below it
+				{Kind: "restart"},                 // rebuild from 0 over pruned headers: the initialiser fails
+				qu(filtA, 29, 29, 2, 0), st(1, evA), qu(filtA, 30, 30, 2, 0),
+			}
+		}},
+		{Name: "corrupted-window-store", Near: true, Ops: func(h int) []Op {
+			return []Op{
+				st(W+5-h, nil), qu(filtA, 0, W+5, 2, 0),
+				{Kind: "tamper", T: "del 0"}, qu(filtA, 0, W+5, 2, 0), // still cached
+				{Kind: "restart"}, qu(filtA, 0, W+5, 2, 0), qu(filtA, W, W+5, 2, 0), // window 0 missing: notfound
+				rv(6),                                                                  // re-opening window 0 fails too
+				qu(filtA, W, W+5, 2, 0),
+			}
+		}},
+		{Name: "window-stored-under-the-wrong-key", Near: true, Far: true, Ops: func(h int) []Op {
+			return []Op{
+				st(2*W+5-h, nil),
+				{Kind: "tamper", T: fmt.Sprintf("mov %d 0", W)}, {Kind: "restart"},
+				qu(filtA, 0, 2*W+5, 2, 0), qu(filtA, W, 2*W+5, 2, 0),
+			}
+		}},
 		{Name: "boundary-walk", Near: true, Ops: func(h int) []Op {
 			ops := []Op{st(W-2-h, nil), st(1, evA), st(1, evB)} // W-2 carries A, W-1 carries B: head W-1, rollover done
 			f := Filt{}
@@ -479,6 +556,7 @@ func runDirected(bases *Base, far *Base, d Directed, r *lib.RNG, id uint64, res 
 	for _, newState := range []bool{false, true} {
 		prunerInit := newState || d.Pruning // vary the initialiser with the backend
 		w := startWorld(bases, d.Near, d.Name, r, id*2+map[bool]uint64{false: 0, true: 1}[newState], res, pool, v, newState, prunerInit)
+		w.Tampered = d.BelowFloor
 		runOps(w, d.Ops(len(w.Chain)), "directed:"+d.Name)
 		w.close()
 		res.Hit("history:directed")
@@ -502,6 +580,9 @@ func probeVariant(bases *Base, r *lib.RNG) Variant {
 				omitted = true
 			}
 		}
+		if tmp.Fatal != nil {
+			panic(fmt.Sprintf("probe failed: %v", tmp.Fatal))
+		}
 		if omitted {
 			switch d.Probe {
 			case "cache":
@@ -511,6 +592,19 @@ func probeVariant(bases *Base, r *lib.RNG) Variant {
 			case "persist":
 				v.FixPersist = false
 			}
+		}
+	}
+	// is a failed lazy initialisation remembered for event queries?
+	{
+		tmp := lib.NewResult("probe")
+		w := newWorld("probe:init-retry", r.Fork(399), tmp, nil, Variant{}, false, false)
+		w.do(st(1, nil))
+		w.do(st(1, evA))
+		w.do(Op{Kind: "restartfault"})
+		pg := realPage(w.Node, w, Q{F: filtA, From: 0, To: 1, Chunk: 5}, nil, "")
+		v.InitRetry = pg.Err == ""
+		if tmp.Fatal != nil {
+			panic(fmt.Sprintf("probe failed: %v", tmp.Fatal))
 		}
 	}
 	return v
@@ -596,9 +690,20 @@ func runRandom(bases *Base, far *Base, r *lib.RNG, id uint64, res *lib.Result, f
 				q.From = w.Floor + r.Intn(3) // most queries of a pruning node stay in the retained range
 			}
 			op = Op{Kind: "query", Q: &q}
-		case x < 90:
+		case x < 88:
 			w.do(Op{Kind: "snap"})
 			op = Op{Kind: "restart"}
+		case x < 90:
+			switch r.Intn(4) {
+			case 0:
+				op = Op{Kind: "storefail", Plan: genPlan(r)}
+			case 1:
+				op = Op{Kind: "revertfail"}
+			case 2:
+				op = Op{Kind: "restartcrash", N: r.Intn(2)}
+			default:
+				op = Op{Kind: "restartfault"}
+			}
 		case x < 96:
 			op = Op{Kind: "restart"}
 		default:
@@ -626,6 +731,7 @@ func runRandom(bases *Base, far *Base, r *lib.RNG, id uint64, res *lib.Result, f
 		}
 	}
 	w.checkTokenParsing(r)
+	w.checkRequestValidation()
 	if pruning {
 		res.Hit("history:pruning-node")
 	}
